@@ -1,27 +1,31 @@
 (* C18 — serialisation round-trips; damaged input rejected without corruption.  Pinned statements only.
 
-   `current_*` (Model/C18Serial.v) = the code as it is today; `fixed_*` = the repaired readers of
-   work/proposed_fixes/C18_*.diff; `reader_*` = the switch used by run_c18 (C18_model_in_force says which).  For the code as it is, read_total / read_preserves_inv / err_leaves_metadata
-   are FALSE: the `_refuted` theorems are the witnesses (replayed on the implementation by the harness), the
-   `_guarded` / `_partial` theorems state what does hold.  For the repaired readers the full statements hold. *)
+   `reader_*` / `dist_writer` (Model/C18Serial.v) are the model of /repo that run_c18 executes: since /repo 206cd69,
+   0b16af7, 6f8da98, 1c0fa22 they are the repaired readers (C18_model_in_force).  The theorems below are stated for
+   EVERY receiver and EVERY byte string, in both arithmetic modes (dbg) and for both kinds of reader (partial).
+   Still false of the code, with witnesses: an in-place composite reader has replaced keys 0..k-1 when key k fails
+   (C18_err_leaves_metadata_composite_refuted), and the Distribution word drops the 8 low mantissa bits of a
+   probability (C18_dist_roundtrip_refuted_low8bits).  The model of the code before the repairs (`current_*`) and its
+   refutations stay in Proofs/ as lemmas. *)
 From PV Require Import Base.MachineInt Model.C18Serial Proofs.C18Bytes Proofs.C18Flat Proofs.C18Wrap Proofs.C18Keys.
 Open Scope Z_scope.
 
 (* ============================ 0. the model that run_c18 uses for /repo ============================ *)
 Theorem C18_model_in_force :
-  reader_flat = current_flat /\ reader_wobj = current_wobj /\ reader_kseq = current_kseq /\
-  reader_cbk = current_cbk /\ reader_bdd = current_bdd /\ dist_writer = current_dist_writer.
+  reader_flat = fixed_flat /\ reader_wobj = fixed_wobj /\ reader_kseq = fixed_kseq /\
+  reader_cbk = fixed_cbk /\ reader_bdd = fixed_bdd /\ dist_writer = dist_write_fixed.
 Proof. exact model_in_force. Qed.
 Print Assumptions C18_model_in_force.
 
 (* ============================ 1. read (write x) = x ============================ *)
-
-(* VecZnx / ScalarZnx / MatZnx, the reader as it is *)
-Theorem C18_read_write_roundtrip_flat : forall (dbg partial : bool) (r x : flat) (tl : bytes),
+(* VecZnx / ScalarZnx / MatZnx: every header word and every active byte; max_size of a VecZnx = min(max_size, what the
+   receiver's buffer holds); the bytes of the receiver beyond the payload are untouched *)
+Theorem C18_read_write_roundtrip : forall (dbg partial : bool) (r x : flat) (tl : bytes),
   wf_flat x -> fk r = fk x -> payload_len x <= blen (fd r) ->
-  current_flat dbg partial r (write_flat x ++ tl) = (Ok, loaded (fh x) r x, tl).
-Proof. exact read_flat_roundtrip. Qed.
-Print Assumptions C18_read_write_roundtrip_flat.
+  (fk x = KVec -> hd_ (fh x) 2 <= hd_ (fh x) 3) ->
+  reader_flat dbg partial r (write_flat x ++ tl) = (Ok, loaded (clamp_hdr (fk x) (fh x) (blen (fd r))) r x, tl).
+Proof. exact read_flat_fixed_roundtrip. Qed.
+Print Assumptions C18_read_write_roundtrip.
 
 Theorem C18_roundtrip_result_is_logically_x : forall (h : list Z) (r x : flat),
   wf_flat x -> payload_len x <= blen (fd r) ->
@@ -30,89 +34,6 @@ Proof. exact loaded_logical. Qed.
 Print Assumptions C18_roundtrip_result_is_logically_x.
 
 Theorem C18_read_write_roundtrip_vec_znx : forall (dbg partial : bool) (r x : vec_znx) (tl : bytes),
-  wf_flat (flat_of_vec x) -> vec_payload x <= blen (vdata r) ->
-  read_vec_znx dbg partial r (write_vec_znx x ++ tl) =
-    (Ok, {| vn := vn x; vcols := vcols x; vsize := vsize x; vmax_size := vmax_size x;
-            vdata := firstn (Z.to_nat (vec_payload x)) (vdata x) ++ skipn (Z.to_nat (vec_payload x)) (vdata r) |}, tl).
-Proof. exact read_vec_znx_roundtrip. Qed.
-Print Assumptions C18_read_write_roundtrip_vec_znx.
-
-Theorem C18_read_write_roundtrip_scalar_znx : forall (dbg partial : bool) (r x : scalar_znx) (tl : bytes),
-  wf_flat (flat_of_scalar x) -> scalar_payload x <= blen (sdata r) ->
-  read_scalar_znx dbg partial r (write_scalar_znx x ++ tl) =
-    (Ok, {| sn := sn x; scols := scols x;
-            sdata := firstn (Z.to_nat (scalar_payload x)) (sdata x) ++ skipn (Z.to_nat (scalar_payload x)) (sdata r) |}, tl).
-Proof. exact read_scalar_znx_roundtrip. Qed.
-Print Assumptions C18_read_write_roundtrip_scalar_znx.
-
-Theorem C18_read_write_roundtrip_mat_znx : forall (dbg partial : bool) (r x : mat_znx) (tl : bytes),
-  wf_flat (flat_of_mat x) -> mat_payload x <= blen (mdata r) ->
-  read_mat_znx dbg partial r (write_mat_znx x ++ tl) =
-    (Ok, {| mn := mn x; msize := msize x; mrows := mrows x; mcols_in := mcols_in x; mcols_out := mcols_out x;
-            mdata := firstn (Z.to_nat (mat_payload x)) (mdata x) ++ skipn (Z.to_nat (mat_payload x)) (mdata r) |}, tl).
-Proof. exact read_mat_znx_roundtrip. Qed.
-Print Assumptions C18_read_write_roundtrip_mat_znx.
-
-(* every poulpy-core wrapper (GLWE, LWE, GGLWE, GGSW, the keys, GLWEPublicKey, all compressed forms) *)
-Theorem C18_read_write_roundtrip_wobj : forall (dbg partial : bool) (r x : wobj) (tl : bytes),
-  wf_wobj x -> small_fields (w_fields x) -> wobj_fits r x ->
-  current_wobj dbg partial r (write_wobj x ++ tl) =
-    (Ok, {| w_fields := w_fields x; w_body := loaded (fh (w_body x)) (w_body r) (w_body x) |}, tl).
-Proof. exact read_wobj_roundtrip. Qed.
-Print Assumptions C18_read_write_roundtrip_wobj.
-
-(* GGLWEToGGSWKey, BlindRotationKey and their compressed forms *)
-Theorem C18_read_write_roundtrip_kseq : forall (dbg partial : bool) (r x : kseq) (tl : bytes),
-  kseq_fits fits_now r x -> small_fields (k_pre x) ->
-  current_kseq dbg partial r (write_kseq x ++ tl) =
-    (Ok, resk_now r x, tl).
-Proof. exact current_kseq_roundtrip. Qed.
-Print Assumptions C18_read_write_roundtrip_kseq.
-
-(* CircuitBootstrappingKey *)
-Theorem C18_read_write_roundtrip_cbk : forall (dbg partial : bool) (r x : cbk) (tl : bytes),
-  cbk_fits fits_now fitsk_now r x ->
-  current_cbk dbg partial r (write_cbk x ++ tl) = (Ok, cbk_res res_now resk_now r x, tl).
-Proof. exact current_cbk_roundtrip. Qed.
-Print Assumptions C18_read_write_roundtrip_cbk.
-
-(* BDDKey *)
-Theorem C18_read_write_roundtrip_bdd : forall (dbg partial : bool) (r x : bdd) (tl : bytes),
-  bdd_fits fits_now (cbk_fits fits_now fitsk_now) r x ->
-  current_bdd dbg partial r (write_bdd x ++ tl) = (Ok, bdd_res res_now (cbk_res res_now resk_now) r x, tl).
-Proof. exact current_bdd_roundtrip. Qed.
-Print Assumptions C18_read_write_roundtrip_bdd.
-
-(* Distribution: exactly the values with a 56-bit payload survive; the rest is a documented loss *)
-Theorem C18_dist_roundtrip : forall t p : Z, dist_canonical t p ->
-  u64 (dist_word t p) /\ dist_decode (dist_word t p) = Some (t, p).
-Proof. exact dist_word_spec. Qed.
-Print Assumptions C18_dist_roundtrip.
-
-Theorem C18_dist_roundtrip_refuted_low8bits :
-  dist_decode (dist_word 1 4602678819172646913) = Some (1, 4602678819172646912).
-Proof. exact dist_roundtrip_refuted_low8bits. Qed.
-Print Assumptions C18_dist_roundtrip_refuted_low8bits.
-
-Theorem C18_dist_roundtrip_refuted_big_payload :
-  dist_decode (dist_word 0 (2 ^ 56)) = Some (1, 0) /\ dist_decode (dist_word 0 (7 * 2 ^ 56)) = None.
-Proof. exact dist_roundtrip_refuted_big_payload. Qed.
-Print Assumptions C18_dist_roundtrip_refuted_big_payload.
-
-Theorem C18_dist_roundtrip_fixed_writer : forall t p w : Z,
-  dist_is_fixed t = true -> 0 <= p -> dist_write_fixed t p = Some w -> u64 w /\ dist_decode w = Some (t, p).
-Proof. exact dist_write_fixed_roundtrip. Qed.
-Print Assumptions C18_dist_roundtrip_fixed_writer.
-
-(* the repaired readers round-trip as well (max_size of a VecZnx is clamped to the receiver's capacity) *)
-Theorem C18_read_write_roundtrip_fixed_flat : forall (dbg partial : bool) (r x : flat) (tl : bytes),
-  wf_flat x -> fk r = fk x -> payload_len x <= blen (fd r) ->
-  (fk x = KVec -> hd_ (fh x) 2 <= hd_ (fh x) 3) ->
-  fixed_flat dbg partial r (write_flat x ++ tl) = (Ok, loaded (clamp_hdr (fk x) (fh x) (blen (fd r))) r x, tl).
-Proof. exact read_flat_fixed_roundtrip. Qed.
-Print Assumptions C18_read_write_roundtrip_fixed_flat.
-
-Theorem C18_read_write_roundtrip_fixed_vec_znx : forall (dbg partial : bool) (r x : vec_znx) (tl : bytes),
   wf_flat (flat_of_vec x) -> vec_payload x <= blen (vdata r) -> vsize x <= vmax_size x ->
   read_vec_znx_fixed dbg partial r (write_vec_znx x ++ tl) =
     (Ok, {| vn := vn x; vcols := vcols x; vsize := vsize x;
@@ -120,35 +41,71 @@ Theorem C18_read_write_roundtrip_fixed_vec_znx : forall (dbg partial : bool) (r 
                            (if vn x * vcols x * 8 =? 0 then vmax_size x else blen (vdata r) / (vn x * vcols x * 8));
             vdata := firstn (Z.to_nat (vec_payload x)) (vdata x) ++ skipn (Z.to_nat (vec_payload x)) (vdata r) |}, tl).
 Proof. exact read_vec_znx_fixed_roundtrip. Qed.
-Print Assumptions C18_read_write_roundtrip_fixed_vec_znx.
+Print Assumptions C18_read_write_roundtrip_vec_znx.
 
-Theorem C18_read_write_roundtrip_fixed_wobj : forall (dbg partial : bool) (r x : wobj) (tl : bytes),
+Theorem C18_read_write_roundtrip_scalar_znx : forall (dbg partial : bool) (r x : scalar_znx) (tl : bytes),
+  wf_flat (flat_of_scalar x) -> scalar_payload x <= blen (sdata r) ->
+  read_scalar_znx_fixed dbg partial r (write_scalar_znx x ++ tl) =
+    (Ok, {| sn := sn x; scols := scols x;
+            sdata := firstn (Z.to_nat (scalar_payload x)) (sdata x) ++ skipn (Z.to_nat (scalar_payload x)) (sdata r) |}, tl).
+Proof. exact read_scalar_znx_fixed_roundtrip. Qed.
+Print Assumptions C18_read_write_roundtrip_scalar_znx.
+
+Theorem C18_read_write_roundtrip_mat_znx : forall (dbg partial : bool) (r x : mat_znx) (tl : bytes),
+  wf_flat (flat_of_mat x) -> mat_payload x <= blen (mdata r) ->
+  read_mat_znx_fixed dbg partial r (write_mat_znx x ++ tl) =
+    (Ok, {| mn := mn x; msize := msize x; mrows := mrows x; mcols_in := mcols_in x; mcols_out := mcols_out x;
+            mdata := firstn (Z.to_nat (mat_payload x)) (mdata x) ++ skipn (Z.to_nat (mat_payload x)) (mdata r) |}, tl).
+Proof. exact read_mat_znx_fixed_roundtrip. Qed.
+Print Assumptions C18_read_write_roundtrip_mat_znx.
+
+(* every poulpy-core wrapper (GLWE, LWE, GGLWE, GGSW, the keys, GLWEPublicKey, all compressed forms) *)
+Theorem C18_read_write_roundtrip_wobj : forall (dbg partial : bool) (r x : wobj) (tl : bytes),
   wf_wobj x -> valid_wobj x -> wobj_fits r x ->
   (fk (w_body x) = KVec -> hd_ (fh (w_body x)) 2 <= hd_ (fh (w_body x)) 3) ->
-  fixed_wobj dbg partial r (write_wobj x ++ tl) =
+  reader_wobj dbg partial r (write_wobj x ++ tl) =
     (Ok, {| w_fields := w_fields x;
             w_body := loaded (clamp_hdr (fk (w_body x)) (fh (w_body x)) (blen (fd (w_body r)))) (w_body r) (w_body x) |}, tl).
 Proof. exact read_wobj_fixed_roundtrip. Qed.
-Print Assumptions C18_read_write_roundtrip_fixed_wobj.
+Print Assumptions C18_read_write_roundtrip_wobj.
 
-Theorem C18_read_write_roundtrip_fixed_kseq : forall (dbg partial : bool) (r x : kseq) (tl : bytes),
+(* GGLWEToGGSWKey, BlindRotationKey and their compressed forms *)
+Theorem C18_read_write_roundtrip_kseq : forall (dbg partial : bool) (r x : kseq) (tl : bytes),
   kseq_fits fits_fix r x ->
-  fixed_kseq dbg partial r (write_kseq x ++ tl) =
-    (Ok, resk_fix r x, tl).
+  reader_kseq dbg partial r (write_kseq x ++ tl) = (Ok, resk_fix r x, tl).
 Proof. exact fixed_kseq_roundtrip. Qed.
-Print Assumptions C18_read_write_roundtrip_fixed_kseq.
+Print Assumptions C18_read_write_roundtrip_kseq.
 
-Theorem C18_read_write_roundtrip_fixed_cbk : forall (dbg partial : bool) (r x : cbk) (tl : bytes),
+(* CircuitBootstrappingKey *)
+Theorem C18_read_write_roundtrip_cbk : forall (dbg partial : bool) (r x : cbk) (tl : bytes),
   cbk_fits fits_fix (kseq_fits fits_fix) r x ->
-  fixed_cbk dbg partial r (write_cbk x ++ tl) = (Ok, cbk_res res_fix resk_fix r x, tl).
+  reader_cbk dbg partial r (write_cbk x ++ tl) = (Ok, cbk_res res_fix resk_fix r x, tl).
 Proof. exact fixed_cbk_roundtrip. Qed.
-Print Assumptions C18_read_write_roundtrip_fixed_cbk.
+Print Assumptions C18_read_write_roundtrip_cbk.
 
-Theorem C18_read_write_roundtrip_fixed_bdd : forall (dbg partial : bool) (r x : bdd) (tl : bytes),
+(* BDDKey *)
+Theorem C18_read_write_roundtrip_bdd : forall (dbg partial : bool) (r x : bdd) (tl : bytes),
   bdd_fits fits_fix (cbk_fits fits_fix (kseq_fits fits_fix)) r x ->
-  fixed_bdd dbg partial r (write_bdd x ++ tl) = (Ok, bdd_res res_fix (cbk_res res_fix resk_fix) r x, tl).
+  reader_bdd dbg partial r (write_bdd x ++ tl) = (Ok, bdd_res res_fix (cbk_res res_fix resk_fix) r x, tl).
 Proof. exact fixed_bdd_roundtrip. Qed.
-Print Assumptions C18_read_write_roundtrip_fixed_bdd.
+Print Assumptions C18_read_write_roundtrip_bdd.
+
+(* Distribution: the values with a 56-bit payload survive; an integer payload that does not fit is refused by the writer *)
+Theorem C18_dist_roundtrip : forall t p : Z, dist_canonical t p ->
+  u64 (dist_word t p) /\ dist_decode (dist_word t p) = Some (t, p).
+Proof. exact dist_word_spec. Qed.
+Print Assumptions C18_dist_roundtrip.
+
+Theorem C18_dist_roundtrip_writer : forall t p w : Z,
+  dist_is_fixed t = true -> 0 <= p -> dist_writer t p = Some w -> u64 w /\ dist_decode w = Some (t, p).
+Proof. exact dist_write_fixed_roundtrip. Qed.
+Print Assumptions C18_dist_roundtrip_writer.
+
+(* still FALSE of the code (documented in dist.rs): the 8 low mantissa bits of a probability are dropped *)
+Theorem C18_dist_roundtrip_refuted_low8bits :
+  dist_decode (dist_word 1 4602678819172646913) = Some (1, 4602678819172646912).
+Proof. exact dist_roundtrip_refuted_low8bits. Qed.
+Print Assumptions C18_dist_roundtrip_refuted_low8bits.
 
 (* ============================ 2. the format mentions no backend ============================ *)
 (* the writers take the logical object and nothing else: equal header words, scalar fields and active bytes give
@@ -170,185 +127,133 @@ Proof. exact write_kseq_logical. Qed.
 Print Assumptions C18_format_backend_independent_kseq.
 
 (* ============================ 3. every byte string: Ok or Err ============================ *)
-Definition C18_read_total_full : Prop :=
-  forall (dbg partial : bool) (r : flat) (s : bytes), good (fst (fst (current_flat dbg partial r s))).
-
-(* FALSE today.  debug: n = 2^61, cols = size = 1, len = 0 panics ("attempt to multiply with overflow") *)
-Theorem C18_read_total_refuted_debug : fst (fst (current_flat true false w_recv w_overflow)) = PanicOverflow.
-Proof. exact read_flat_total_refuted_debug. Qed.
-Print Assumptions C18_read_total_refuted_debug.
-
-(* release: the same stream is accepted; n = 2^61 is committed over a 64-byte buffer *)
-Theorem C18_read_total_refuted_release :
-  exists r', current_flat false false w_recv w_overflow = (OkWrapped, r', []) /\
-             hd_ (fh r') 0 = 2 ^ 61 /\ blen (fd r') = 64 /\ ~ inv_active r'.
-Proof. exact read_flat_total_refuted_release. Qed.
-Print Assumptions C18_read_total_refuted_release.
-
-(* compressed forms: 20 bytes ask for 4097 * 32 bytes of seeds before a single seed has been read: abort *)
-Theorem C18_read_total_refuted_alloc :
-  fst (fst (current_wobj false false w_gglwe_c
-              (le_bytes 4 16 ++ le_bytes 4 8 ++ le_bytes 4 1 ++ le_bytes 4 1 ++ le_bytes 4 4097))) = AbortAlloc.
-Proof. exact read_wobj_total_refuted_alloc. Qed.
-Print Assumptions C18_read_total_refuted_alloc.
-
-(* what holds today: total as soon as the header products of the stream stay below 2^64; never out of bounds *)
-Theorem C18_read_total_guarded : forall (dbg partial : bool) (r : flat) (s : bytes),
-  hdr_no_overflow (fk r) s -> good (fst (fst (current_flat dbg partial r s))).
-Proof. exact read_flat_total_guarded. Qed.
-Print Assumptions C18_read_total_guarded.
-
-Theorem C18_read_never_out_of_bounds : forall (dbg partial : bool) (r : flat) (s : bytes),
-  fst (fst (current_flat dbg partial r s)) <> PanicOob.
-Proof. exact read_flat_never_oob. Qed.
-Print Assumptions C18_read_never_out_of_bounds.
-
-(* the repaired readers: total, for every receiver and every byte string, in both arithmetic modes *)
-Theorem C18_read_total_fixed_flat : forall (dbg partial : bool) (r : flat) (s : bytes),
-  good (fst (fst (fixed_flat dbg partial r s))).
+(* never a panic, an arithmetic overflow, a wrapped acceptance, an out-of-bounds slice or an allocation abort *)
+Theorem C18_read_total : forall (dbg partial : bool) (r : flat) (s : bytes),
+  good (fst (fst (reader_flat dbg partial r s))).
 Proof. exact read_flat_fixed_total. Qed.
-Print Assumptions C18_read_total_fixed_flat.
+Print Assumptions C18_read_total.
 
-Theorem C18_read_total_fixed_wobj : forall (dbg partial : bool) (r : wobj) (s : bytes),
-  good (fst (fst (fixed_wobj dbg partial r s))).
+Theorem C18_read_total_wobj : forall (dbg partial : bool) (r : wobj) (s : bytes),
+  good (fst (fst (reader_wobj dbg partial r s))).
 Proof. exact fixed_wobj_total. Qed.
-Print Assumptions C18_read_total_fixed_wobj.
+Print Assumptions C18_read_total_wobj.
 
-Theorem C18_read_total_fixed_kseq : forall (dbg partial : bool) (r : kseq) (s : bytes),
-  good (fst (fst (fixed_kseq dbg partial r s))).
+Theorem C18_read_total_kseq : forall (dbg partial : bool) (r : kseq) (s : bytes),
+  good (fst (fst (reader_kseq dbg partial r s))).
 Proof. exact fixed_kseq_total. Qed.
-Print Assumptions C18_read_total_fixed_kseq.
+Print Assumptions C18_read_total_kseq.
 
-Theorem C18_read_total_fixed_cbk : forall (dbg partial : bool) (r : cbk) (s : bytes),
-  good (fst (fst (fixed_cbk dbg partial r s))).
+Theorem C18_read_total_cbk : forall (dbg partial : bool) (r : cbk) (s : bytes),
+  good (fst (fst (reader_cbk dbg partial r s))).
 Proof. exact fixed_cbk_total. Qed.
-Print Assumptions C18_read_total_fixed_cbk.
+Print Assumptions C18_read_total_cbk.
 
-Theorem C18_read_total_fixed_bdd : forall (dbg partial : bool) (r : bdd) (s : bytes),
-  good (fst (fst (fixed_bdd dbg partial r s))).
+Theorem C18_read_total_bdd : forall (dbg partial : bool) (r : bdd) (s : bytes),
+  good (fst (fst (reader_bdd dbg partial r s))).
 Proof. exact fixed_bdd_total. Qed.
-Print Assumptions C18_read_total_fixed_bdd.
+Print Assumptions C18_read_total_bdd.
 
 (* ============================ 4. the receiver stays usable ============================ *)
-Definition C18_read_preserves_inv_full : Prop :=
-  forall (dbg partial : bool) (r : flat) (s : bytes) (o : outcome) (r' : flat) (t : bytes),
-    current_flat dbg partial r s = (o, r', t) -> good o -> inv_flat r -> inv_flat r'.
-
-(* FALSE today, on an HONEST stream: size = 1, max_size = 5 into a one-limb receiver commits max_size = 5 *)
-Theorem C18_read_preserves_inv_refuted :
-  inv_flat w_recv8 /\
-  exists r', current_flat false false w_recv8 w_maxsize = (Ok, r', []) /\ hd_ (fh r') 3 = 5 /\ ~ inv_flat r'.
-Proof. exact read_flat_preserves_inv_refuted. Qed.
-Print Assumptions C18_read_preserves_inv_refuted.
-
-(* what holds today: after Ok and after Err the active limbs lie inside the buffer, whose length never changes *)
-Theorem C18_read_preserves_inv_partial : forall (dbg partial : bool) (r : flat) (s : bytes) (o : outcome) (r' : flat) (t : bytes),
-  current_flat dbg partial r s = (o, r', t) -> good o -> inv_active r -> inv_active r'.
-Proof. exact read_flat_preserves_active. Qed.
-Print Assumptions C18_read_preserves_inv_partial.
-
-Theorem C18_read_preserves_inv_partial_wobj : forall (dbg partial : bool) (r : wobj) (s : bytes) (o : outcome) (r' : wobj) (t : bytes),
-  current_wobj dbg partial r s = (o, r', t) -> good o -> inv_active (w_body r) -> inv_active (w_body r').
-Proof. exact read_wobj_preserves_active. Qed.
-Print Assumptions C18_read_preserves_inv_partial_wobj.
-
-(* ... and the full invariant under the explicit guard on the max_size word of the stream *)
-Theorem C18_read_preserves_inv_guarded : forall (dbg partial : bool) (r : flat) (s : bytes) (o : outcome) (r' : flat) (t : bytes),
-  current_flat dbg partial r s = (o, r', t) -> good o -> inv_flat r ->
-  (fk r = KVec -> o = Ok -> hd_ (fh r') 2 <= hd_ (fh r') 3 /\ lprod (cap_factors KVec (fh r')) <= blen (fd r)) ->
-  inv_flat r'.
-Proof. exact read_flat_preserves_inv_guarded. Qed.
-Print Assumptions C18_read_preserves_inv_guarded.
+(* after Ok AND after Err: size <= max_size, n*cols*max_size*8 <= |buffer| (MatZnx / ScalarZnx: the product of all
+   dimensions), wrappers: moreover base2k and dsize non-zero *)
+Theorem C18_read_preserves_inv : forall (dbg partial : bool) (r : flat) (s : bytes) (o : outcome) (r' : flat) (t : bytes),
+  reader_flat dbg partial r s = (o, r', t) -> inv_flat r -> inv_flat r'.
+Proof. exact read_flat_fixed_preserves_inv. Qed.
+Print Assumptions C18_read_preserves_inv.
 
 Theorem C18_read_keeps_buffer_length : forall (dbg partial : bool) (r : flat) (s : bytes),
-  length (fd (snd (fst (current_flat dbg partial r s)))) = length (fd r) /\ fk (snd (fst (current_flat dbg partial r s))) = fk r.
-Proof. exact read_flat_length. Qed.
+  length (fd (snd (fst (reader_flat dbg partial r s)))) = length (fd r) /\ fk (snd (fst (reader_flat dbg partial r s))) = fk r.
+Proof. exact read_flat_fixed_length. Qed.
 Print Assumptions C18_read_keeps_buffer_length.
 
-(* the repaired readers: the full invariant, after every outcome, at every level *)
-Theorem C18_read_preserves_inv_fixed_flat : forall (dbg partial : bool) (r : flat) (s : bytes) (o : outcome) (r' : flat) (t : bytes),
-  fixed_flat dbg partial r s = (o, r', t) -> inv_flat r -> inv_flat r'.
-Proof. exact read_flat_fixed_preserves_inv. Qed.
-Print Assumptions C18_read_preserves_inv_fixed_flat.
-
-Theorem C18_read_preserves_inv_fixed_wobj : forall (dbg partial : bool) (r : wobj) (s : bytes) (o : outcome) (r' : wobj) (t : bytes),
-  fixed_wobj dbg partial r s = (o, r', t) -> inv_wobj r -> valid_wobj r -> inv_wobj r' /\ valid_wobj r'.
+Theorem C18_read_preserves_inv_wobj : forall (dbg partial : bool) (r : wobj) (s : bytes) (o : outcome) (r' : wobj) (t : bytes),
+  reader_wobj dbg partial r s = (o, r', t) -> inv_wobj r -> valid_wobj r -> inv_wobj r' /\ valid_wobj r'.
 Proof. exact read_wobj_fixed_preserves_inv. Qed.
-Print Assumptions C18_read_preserves_inv_fixed_wobj.
+Print Assumptions C18_read_preserves_inv_wobj.
 
-Theorem C18_read_preserves_inv_fixed_kseq : forall (dbg partial : bool) (r : kseq) (s : bytes),
-  Ik r -> Ik (snd (fst (fixed_kseq dbg partial r s))).
+Theorem C18_read_preserves_inv_kseq : forall (dbg partial : bool) (r : kseq) (s : bytes),
+  Ik r -> Ik (snd (fst (reader_kseq dbg partial r s))).
 Proof. exact fixed_kseq_inv. Qed.
-Print Assumptions C18_read_preserves_inv_fixed_kseq.
+Print Assumptions C18_read_preserves_inv_kseq.
 
-Theorem C18_read_preserves_inv_fixed_cbk : forall (dbg partial : bool) (r : cbk) (s : bytes),
-  Ic r -> Ic (snd (fst (fixed_cbk dbg partial r s))).
+Theorem C18_read_preserves_inv_cbk : forall (dbg partial : bool) (r : cbk) (s : bytes),
+  Ic r -> Ic (snd (fst (reader_cbk dbg partial r s))).
 Proof. exact fixed_cbk_inv. Qed.
-Print Assumptions C18_read_preserves_inv_fixed_cbk.
+Print Assumptions C18_read_preserves_inv_cbk.
 
-Theorem C18_read_preserves_inv_fixed_bdd : forall (dbg partial : bool) (r : bdd) (s : bytes),
-  Ib r -> Ib (snd (fst (fixed_bdd dbg partial r s))).
+Theorem C18_read_preserves_inv_bdd : forall (dbg partial : bool) (r : bdd) (s : bytes),
+  Ib r -> Ib (snd (fst (reader_bdd dbg partial r s))).
 Proof. exact fixed_bdd_inv. Qed.
-Print Assumptions C18_read_preserves_inv_fixed_bdd.
+Print Assumptions C18_read_preserves_inv_bdd.
 
 (* ============================ 5. Err leaves the metadata alone ============================ *)
-(* true today for the three HAL types *)
-Theorem C18_err_leaves_metadata_flat : forall (dbg partial : bool) (r : flat) (s : bytes) (r' : flat) (t : bytes),
-  current_flat dbg partial r s = (Err, r', t) -> fk r' = fk r /\ fh r' = fh r /\ length (fd r') = length (fd r).
-Proof. exact read_flat_err_leaves_metadata. Qed.
-Print Assumptions C18_err_leaves_metadata_flat.
-
-Definition C18_err_leaves_metadata_full : Prop :=
-  forall (dbg partial : bool) (r : wobj) (s : bytes) (r' : wobj) (t : bytes),
-    current_wobj dbg partial r s = (Err, r', t) -> same_meta_wobj r' r.
-
-(* FALSE today for every wrapper: a GLWE whose stream ends after the base2k word has base2k changed *)
-Theorem C18_err_leaves_metadata_refuted :
-  exists r', current_wobj false false w_glwe (le_bytes 4 9) = (Err, r', []) /\
-             w_fields r' = [{| f_role := 1; f_val := VU32 9 |}] /\ w_fields r' <> w_fields w_glwe.
-Proof. exact read_wobj_err_leaves_metadata_refuted. Qed.
-Print Assumptions C18_err_leaves_metadata_refuted.
-
-(* today base2k = 0 (and dsize = 0) is accepted: later size queries divide by zero *)
-Theorem C18_zero_base2k_accepted :
-  exists r', current_wobj false false w_glwe
-               (le_bytes 4 0 ++ le_bytes 8 1 ++ le_bytes 8 1 ++ le_bytes 8 1 ++ le_bytes 8 1 ++ le_bytes 8 8 ++ repeat 5 8%nat)
-             = (Ok, r', []) /\ fields_valid (w_fields r') = false.
-Proof. exact read_wobj_accepts_zero_base2k. Qed.
-Print Assumptions C18_zero_base2k_accepted.
-
-(* the repaired readers *)
-Theorem C18_err_leaves_metadata_fixed_flat : forall (dbg partial : bool) (r : flat) (s : bytes) (r' : flat) (t : bytes),
-  fixed_flat dbg partial r s = (Err, r', t) -> fk r' = fk r /\ fh r' = fh r /\ length (fd r') = length (fd r).
+Theorem C18_err_leaves_metadata : forall (dbg partial : bool) (r : flat) (s : bytes) (r' : flat) (t : bytes),
+  reader_flat dbg partial r s = (Err, r', t) -> fk r' = fk r /\ fh r' = fh r /\ length (fd r') = length (fd r).
 Proof. exact read_flat_fixed_err_leaves_metadata. Qed.
-Print Assumptions C18_err_leaves_metadata_fixed_flat.
+Print Assumptions C18_err_leaves_metadata.
 
-Theorem C18_err_leaves_metadata_fixed_wobj : forall (dbg partial : bool) (r : wobj) (s : bytes) (r' : wobj) (t : bytes),
-  fixed_wobj dbg partial r s = (Err, r', t) -> same_meta_wobj r' r.
+(* wrappers: every scalar field (base2k, k, rank, dsize, degrees, p, seeds, dist) and the inner header *)
+Theorem C18_err_leaves_metadata_wobj : forall (dbg partial : bool) (r : wobj) (s : bytes) (r' : wobj) (t : bytes),
+  reader_wobj dbg partial r s = (Err, r', t) -> same_meta_wobj r' r.
 Proof. exact read_wobj_fixed_err_leaves_metadata. Qed.
-Print Assumptions C18_err_leaves_metadata_fixed_wobj.
+Print Assumptions C18_err_leaves_metadata_wobj.
 
-(* composites: the fields in front are untouched, and every key is either untouched (metadata) or the complete
-   result of a successful read of that key.  The stronger "every key untouched" is false for any reader that
-   fills the keys in place (witness below): keys 0..k-1 have been replaced when key k fails. *)
-Theorem C18_err_leaves_metadata_fixed_kseq_partial : forall (dbg partial : bool) (r : kseq) (s : bytes),
-  let res := fixed_kseq dbg partial r s in
+(* composites (GGLWEToGGSWKey, BlindRotationKey, ...): the fields in front are untouched, the number of keys is
+   unchanged, and every key is either untouched (metadata) or the complete result of a successful read of that key *)
+Theorem C18_err_leaves_metadata_kseq_partial : forall (dbg partial : bool) (r : kseq) (s : bytes),
+  let res := reader_kseq dbg partial r s in
   good (fst (fst res)) /\ (Ik r -> Ik (snd (fst res))) /\
   length (k_keys (snd (fst res))) = length (k_keys r) /\
   (fst (fst res) = Err -> k_pre (snd (fst res)) = k_pre r /\
-                          Forall2 (key_atomic (fixed_wobj dbg partial)) (k_keys r) (k_keys (snd (fst res)))).
+                          Forall2 (key_atomic (reader_wobj dbg partial)) (k_keys r) (k_keys (snd (fst res)))).
 Proof. exact fixed_kseq_props. Qed.
-Print Assumptions C18_err_leaves_metadata_fixed_kseq_partial.
+Print Assumptions C18_err_leaves_metadata_kseq_partial.
 
-Definition C18_err_leaves_metadata_kseq_full : Prop :=
+(* the full statement for composites is still FALSE of the code: the keys are filled in place, so keys 0..k-1 have
+   been replaced when key k fails (known finding composite.partial_update_on_error) *)
+Definition C18_err_leaves_metadata_composite_full : Prop :=
   forall (dbg partial : bool) (r : kseq) (s : bytes) (r' : kseq) (t : bytes),
-    fixed_kseq dbg partial r s = (Err, r', t) -> k_pre r' = k_pre r /\ Forall2 same_meta_wobj (k_keys r') (k_keys r).
+    reader_kseq dbg partial r s = (Err, r', t) -> k_pre r' = k_pre r /\ Forall2 same_meta_wobj (k_keys r') (k_keys r).
 
-Theorem C18_err_leaves_metadata_kseq_refuted :
-  exists k', fixed_kseq false false w_two_keys w_second_truncated = (Err, k', []) /\
+Theorem C18_err_leaves_metadata_composite_refuted :
+  exists k', reader_kseq false false w_two_keys w_second_truncated = (Err, k', []) /\
              k_keys k' = [w_key 9; w_key 8] /\ k_keys k' <> k_keys w_two_keys.
 Proof. exact fixed_kseq_err_changes_first_key. Qed.
-Print Assumptions C18_err_leaves_metadata_kseq_refuted.
+Print Assumptions C18_err_leaves_metadata_composite_refuted.
+
+(* ---- proposed repair of the composites (work/proposed_fixes/C18_composites_staged.diff, not yet in /repo): the
+   stream is validated on copies of the sub-keys and replayed into the receiver on success.  Then the full statements
+   hold for the bundles as well; on Err the receiver is unchanged altogether, bytes included. ---- *)
+Theorem C18_proposed_staged_read_total : forall (dbg partial : bool),
+  (forall (r : kseq) (s : bytes), good (fst (fst (staged_kseq dbg partial r s)))) /\
+  (forall (r : cbk) (s : bytes), good (fst (fst (staged_cbk dbg partial r s)))) /\
+  (forall (r : bdd) (s : bytes), good (fst (fst (staged_bdd dbg partial r s)))).
+Proof. exact staged_total_all. Qed.
+Print Assumptions C18_proposed_staged_read_total.
+
+Theorem C18_proposed_staged_err_leaves_receiver : forall (dbg partial : bool),
+  (forall (r : kseq) (s : bytes) (r' : kseq) (t : bytes), staged_kseq dbg partial r s = (Err, r', t) -> r' = r) /\
+  (forall (r : cbk) (s : bytes) (r' : cbk) (t : bytes), staged_cbk dbg partial r s = (Err, r', t) -> r' = r) /\
+  (forall (r : bdd) (s : bytes) (r' : bdd) (t : bytes), staged_bdd dbg partial r s = (Err, r', t) -> r' = r).
+Proof. exact staged_err_all. Qed.
+Print Assumptions C18_proposed_staged_err_leaves_receiver.
+
+Theorem C18_proposed_staged_preserves_inv : forall (dbg partial : bool),
+  (forall (r : kseq) (s : bytes), Ik r -> Ik (snd (fst (staged_kseq dbg partial r s)))) /\
+  (forall (r : cbk) (s : bytes), Ic r -> Ic (snd (fst (staged_cbk dbg partial r s)))) /\
+  (forall (r : bdd) (s : bytes), Ib r -> Ib (snd (fst (staged_bdd dbg partial r s)))).
+Proof. exact staged_inv_all. Qed.
+Print Assumptions C18_proposed_staged_preserves_inv.
+
+Theorem C18_proposed_staged_roundtrip : forall (dbg partial : bool),
+  (forall (r x : kseq) (tl : bytes), kseq_fits fits_fix r x ->
+     staged_kseq dbg partial r (write_kseq x ++ tl) = (Ok, resk_fix r x, tl)) /\
+  (forall (r x : cbk) (tl : bytes), cbk_fits fits_fix (kseq_fits fits_fix) r x ->
+     staged_cbk dbg partial r (write_cbk x ++ tl) = (Ok, cbk_res res_fix resk_fix r x, tl)) /\
+  (forall (r x : bdd) (tl : bytes), bdd_fits fits_fix (cbk_fits fits_fix (kseq_fits fits_fix)) r x ->
+     staged_bdd dbg partial r (write_bdd x ++ tl) = (Ok, bdd_res res_fix (cbk_res res_fix resk_fix) r x, tl)).
+Proof. exact staged_roundtrip_all. Qed.
+Print Assumptions C18_proposed_staged_roundtrip.
 
 (* ============================ hypotheses are satisfiable ============================ *)
 Definition ex_vec : flat := {| fk := KVec; fh := [4; 2; 3; 5]; fd := repeat 7 192%nat |}.
